@@ -480,8 +480,28 @@ func RuleU3(c *Ctx) {
 								coord = "Y"
 							default:
 								// batch form: local X / Y cells written by Mul from elem.inner.X / .Y
+								// the cell may be a copy of a copy of the cell the product was written to (results of an
+								// inlined helper): follow whole-value copies between single-assignment locals
+								origin := map[ssa.Value]bool{bc.Call.Args[0]: true}
+								cur := bc.Call.Args[0]
+								for d := 0; d < 4; d++ {
+									cell, isCell := cur.(*ssa.Alloc)
+									if !isCell {
+										break
+									}
+									sts := storesInto(cell)
+									if len(sts) != 1 {
+										break
+									}
+									ld, isLd := sts[0].Val.(*ssa.UnOp)
+									if !isLd || ld.Op != token.MUL {
+										break
+									}
+									cur = ld.X
+									origin[cur] = true
+								}
 								for _, m := range callsTo(fn, gfr, "Element", "Mul") {
-									if m.Call.Args[0] == bc.Call.Args[0] {
+									if origin[m.Call.Args[0]] {
 										for _, a := range m.Call.Args[1:] {
 											if q := core.PathOf(a); strings.HasSuffix(q, ".inner.X") {
 												coord = "X"
